@@ -125,3 +125,12 @@ pub fn image_pool(var: u64) -> Vec<Leaf> {
         Leaf { dims: vec![2, 3, 1], vals: vec![2.0, 1.0, -1.0, 3.0, 1.0 + v, -2.0] },
     ]
 }
+
+/// leaves for programs in which an array meets reshape views of itself
+pub fn view_pool(var: u64) -> Vec<Leaf> {
+    let v = var as f64;
+    vec![
+        Leaf { dims: vec![3, 1], vals: vec![2.0 + v, -1.5, 0.5] },
+        Leaf { dims: vec![3], vals: vec![1.0, 3.0, -2.0 - v] },
+    ]
+}
